@@ -25,6 +25,7 @@ consumed <= |D|, no panic. Non-trivial = at least one block parsed; distinct = h
     replay,
     exh: Some(exh),
     totality: true,
+    aggregate: None,
 };
 
 const MIX_C07: StreamMix = StreamMix {
